@@ -41,9 +41,10 @@ func (verifHistogram) Observe(float64) {}
 // ---- inner part store double -----------------------------------------------------
 
 type verifInner struct {
-	ids    []partstore.PartId
-	data   [][]byte
-	txFree bool
+	ids       []partstore.PartId
+	data      [][]byte
+	txFree    bool
+	afterList func() // runs once right after the next listing was taken (a concurrent flush)
 }
 
 func (s *verifInner) Start(ctx contextT) error { return nil }
@@ -76,7 +77,12 @@ func (s *verifInner) GetPart(ctx contextT, tx database.Tx, id partstore.PartId) 
 	return io.NopCloser(bytes.NewReader(s.data[i])), nil
 }
 func (s *verifInner) GetPartIds(ctx contextT, tx database.Tx) ([]partstore.PartId, error) {
-	return append([]partstore.PartId(nil), s.ids...), nil
+	ids := append([]partstore.PartId(nil), s.ids...)
+	if f := s.afterList; f != nil {
+		s.afterList = nil
+		f()
+	}
+	return ids, nil
 }
 func (s *verifInner) DeletePart(ctx contextT, tx database.Tx, id partstore.PartId) error {
 	if i := s.find(id); i >= 0 {
@@ -128,11 +134,28 @@ func verifNewWorker(db database.Database, inner partstore.PartStore, repo partOu
 		shutdownChannel:           make(chan struct{}),
 		outboxId:                  "ob",
 		claimOwner:                owner,
-		claimLeaseDuration:        30 * time.Second,
+		claimLeaseDuration:        verifLease(),
 		innerPartStore:            inner,
 		partOutboxEntryRepository: repo,
 		tracer:                    otel.Tracer("verif"),
 		metrics:                   &partOutboxMetrics{pendingEntries: verifGauge{}, processedEntries: verifCounter{}, processingDuration: verifHistogram{}, errorsCounter: verifCounter{}},
+	}
+}
+
+// Under the executor the clock is a counter (one tick per time.Now) and a lease
+// lasts 30 ticks-seconds; natively the real clock runs, so leases are short and
+// expiring them means waiting.
+func verifLease() time.Duration {
+	if verifNative() {
+		return 300 * time.Millisecond
+	}
+	return 30 * time.Second
+}
+
+func verifExpireLeases() {
+	verifClockSeq += 100
+	if verifNative() {
+		time.Sleep(400 * time.Millisecond)
 	}
 }
 
@@ -219,7 +242,7 @@ func VerifC18Interleavings() {
 			inflight = entry
 		case 5: // A's lease expires
 			verifCover("lease-expired")
-			verifClockSeq += 100
+			verifExpireLeases()
 		case 6: // worker A resumes: finalize
 			verifAssume(inflight != nil)
 			_, err := a.finalizePartOutboxEntry(verifBg, inflight)
@@ -230,7 +253,18 @@ func VerifC18Interleavings() {
 			verifCover("read")
 			verifMust(database.WithTx(verifBg, db, &dbsql.TxOptions{ReadOnly: true}, func(ctx contextT, tx database.Tx) error {
 				verifCheckRead(b, tx, ids[p], model[p])
+				return nil
+			}))
+			// the listing is the first statement of its own read transaction (as the
+			// garbage collector issues it), so nothing pins a snapshot before it
+			verifMust(database.WithTx(verifBg, db, &dbsql.TxOptions{ReadOnly: true}, func(ctx contextT, tx database.Tx) error {
+				if inflight == nil && verifBool("flush-during-listing") {
+					// worker A flushes while the inner store is being listed
+					verifCover("flush-during-listing")
+					base.afterList = func() { a.maybeProcessOutboxEntries(verifBg) }
+				}
 				got, err := b.GetPartIds(ctx, tx)
+				base.afterList = nil
 				verifMust(err)
 				n := 0
 				for _, m := range model {
@@ -252,7 +286,7 @@ func VerifC18Interleavings() {
 		_, err := a.finalizePartOutboxEntry(verifBg, inflight)
 		verifMust(err)
 	}
-	verifClockSeq += 100
+	verifExpireLeases()
 	b.maybeProcessOutboxEntries(verifBg)
 	a.maybeProcessOutboxEntries(verifBg)
 	var pending int
@@ -307,4 +341,96 @@ func verifStubSince(t time.Time) time.Duration { return time.Millisecond }
 func verifStubRetryWait(ctx contextT)          {}
 func verifStubHeartbeat(obs *outboxPartStore, ctx contextT, entry *partOutboxEntry.Entity) func() {
 	return func() {}
+}
+
+
+// VerifC18LeaseLoss: worker A claims an entry, replays it and stalls; its lease
+// expires; worker B claims the same entry. The solver chooses how B's two
+// actions (claim, replay+finalize) interleave with A's remaining ones
+// (finalize, flush run). Whatever the order, once both are idle the inner store
+// holds exactly the committed parts.
+func VerifC18LeaseLoss() {
+	db := verifNewDB()
+	base := &verifInner{}
+	var inner partstore.PartStore = base
+	if verifParam("txfree", 0) == 1 {
+		inner = verifInnerTxFree{base}
+	}
+	ids := []partstore.PartId{*partstore.MustNewPartIdFromString("01ARZ3NDEKTSV4RRFFQ69G5FAV")}
+	sr, err := sqliteRepo.NewRepository()
+	verifMust(err)
+	repo := &verifRepo{Repository: sr, ids: ids}
+	a := verifNewWorker(db, inner, repo, "ob:A")
+	b := verifNewWorker(db, inner, repo, "ob:B")
+	// committed history on one part: two operations
+	var model verifPartModel
+	for i := 0; i < 2; i++ {
+		if verifBool("delete") {
+			verifMust(database.WithTx(verifBg, db, nil, func(ctx contextT, tx database.Tx) error { return a.DeletePart(ctx, tx, ids[0]) }))
+			model = verifPartModel{}
+		} else {
+			body := []byte{verifByte("body")}
+			verifMust(database.WithTx(verifBg, db, nil, func(ctx contextT, tx database.Tx) error {
+				return a.PutPart(ctx, tx, ids[0], bytes.NewReader(body))
+			}))
+			model = verifPartModel{present: true, body: body}
+		}
+	}
+	replay := func(w *outboxPartStore, e *partOutboxEntry.Entity) {
+		if e.Operation == partOutboxEntry.PutPartOperation {
+			verifMust(w.replayPutPart(verifBg, e))
+		} else {
+			verifMust(w.replayDeletePart(verifBg, e))
+		}
+	}
+	// A claims the first entry, replays it and stalls; the lease expires
+	ea, claimed, err := a.claimNextOutboxEntry(verifBg)
+	verifMust(err)
+	verifAssert(ea != nil && claimed, "worker A could not claim the first entry")
+	replay(a, ea)
+	verifExpireLeases()
+	// remaining actions: A: finalize, flush; B: claim, replay+finalize
+	var eb *partOutboxEntry.Entity
+	aDone, bDone := 0, 0
+	for aDone < 2 || bDone < 2 {
+		takeA := bDone == 2 || (aDone < 2 && verifBool("a-moves"))
+		if takeA {
+			if aDone == 0 {
+				_, err := a.finalizePartOutboxEntry(verifBg, ea)
+				verifMust(err)
+			} else {
+				a.maybeProcessOutboxEntries(verifBg)
+			}
+			aDone++
+			continue
+		}
+		if bDone == 0 {
+			e, ok, err := b.claimNextOutboxEntry(verifBg)
+			verifMust(err)
+			if ok {
+				eb = e
+			}
+		} else if eb != nil {
+			replay(b, eb)
+			_, err := b.finalizePartOutboxEntry(verifBg, eb)
+			verifMust(err)
+		}
+		bDone++
+	}
+	verifExpireLeases()
+	b.maybeProcessOutboxEntries(verifBg)
+	a.maybeProcessOutboxEntries(verifBg)
+	var pending int
+	verifMust(database.WithTx(verifBg, db, &dbsql.TxOptions{ReadOnly: true}, func(ctx contextT, tx database.Tx) error {
+		var err error
+		pending, err = repo.Count(ctx, tx.SqlTx(), "ob")
+		return err
+	}))
+	verifCover("lease-loss")
+	verifAssert(pending == 0, "entries remain although both workers ran to completion")
+	i := base.find(ids[0])
+	verifAssert((i >= 0) == model.present, "after a lost lease the inner store does not hold exactly the committed parts")
+	if i >= 0 {
+		verifAssert(verifBytesEq(base.data[i], model.body), "after a lost lease a part's content differs from the committed content")
+	}
 }
